@@ -317,6 +317,31 @@ def run(ctx):
     if not full_done:
         res.add(Finding('C15', 'C15.e', 'R-ORDER', save.file, save.qualname, save.node.lineno, 'save writes both objects',
                         'no normal path of save performs both puts directly and in order (full object, then %s)' % disc))
+    # ---- C15.h closing a writable transient cassette always cleans up: the two switches are the only conditions
+    from .. import paths as _paths
+    ch = res.clause('C15.h', 'R-DECISION', 'close(): the clean-up depends on read_only / transient only, and removes both key families', floor=1)
+    close_m = cas.lookup('close')
+    if close_m is None:
+        raise AnalysisError('anchor-lost method=S3TapeCassette.close')
+    dels = _paths.paths_to(close_m.node.body, lambda x: isinstance(x, ast.Call) and isinstance(x.func, ast.Attribute) and x.func.attr == 'delete_by_prefix')
+    extra_c = []
+    for st_, conds in dels:
+        for t_, p_ in conds:
+            flds = {n.attr for n in ast.walk(t_) if isinstance(n, ast.Attribute) and isinstance(n.value, ast.Name) and n.value.id == 'self'}
+            others = {x.id for x in ast.walk(t_) if isinstance(x, ast.Name)} - {'self'}
+            if (flds - {'read_only', 'transient'}) or others or not flds:
+                extra_c.append((st_, t_, p_))
+    ch.instance('clean-up of close() guarded by the read_only / transient switches only (%d delete paths)' % len(dels), close_m.qualname,
+                len({id(s_) for s_, c_ in dels}) >= 2 and not extra_c)
+    ch.evaluations += len(dels)
+    if extra_c or len({id(s_) for s_, c_ in dels}) < 2:
+        st_, t_, p_ = extra_c[0] if extra_c else (None, None, None)
+        res.add(Finding('C15', 'C15.h', 'R-DECISION', close_m.file, close_m.qualname, t_.lineno if t_ is not None else close_m.node.lineno,
+                        norm(t_)[:100] if t_ is not None else 'clean-up of close()',
+                        'closing a writable transient cassette does not always remove its recordings: %s' % (
+                            'the clean-up also depends on `%s%s`, so objects written through another cassette object on the same prefix (or by a '
+                            'save that failed half-way) are left in the bucket' % ('' if p_ else 'not ', norm(t_)) if t_ is not None else
+                            'fewer than the two key families are deleted')))
     # ---- C15.f the read-only / transient switches are stored as given
     from . import common
     cf2 = res.clause('C15.g', 'R-PROV', 'read_only and transient are stored as the caller gave them', floor=2)
